@@ -33,7 +33,9 @@ theorem step_inv (M : Nat) (hM : 0 < M) (p : Path) (e : Ev) (hw : e.wf M) (h : I
   cases e with
   | recv n => intro hv; have := h hv; simp only [step] at *; omega
   | foreign n => exact h
-  | validate => intro hv; simp [step] at hv
+  | handshakePacketProcessed => intro hv; simp [step] at hv
+  | tokenValidated => intro hv; simp [step] at hv
+  | pathResponseMatched => intro hv; simp [step] at hv
   | migrate n => intro _; simp only [step]; omega
   | poll seg sizes =>
     intro hv
@@ -78,5 +80,72 @@ theorem emit_gate (p : Path) (seg : Nat) (hv : p.validated = false) :
         have := ih (i+1) (acc + s) (by rw [Nat.mul_succ]; omega) (fun x hx => hs x (by simp [hx])) k
           (by simpa using hk)
         omega
+
+/-- one step turns the flag on only if the event is one of the causes -/
+theorem step_validated_cause (p : Path) (e : Ev) (h : (step p e).validated = true) :
+    p.validated = true ∨ e.isCause = true := by
+  cases e <;> simp_all [step, Ev.isCause]
+
+/-- a migration always leaves an unvalidated path -/
+theorem step_migrate_unvalidated (p : Path) (n : Nat) : (step p (.migrate n)).validated = false := rfl
+
+/-- without a cause among the events the flag never turns on -/
+theorem run_no_cause (evs : List Ev) : ∀ (p : Path), p.validated = false → (∀ e ∈ evs, e.isCause = false) →
+    (run p evs).validated = false := by
+  induction evs with
+  | nil => intro p h _; exact h
+  | cons e rest ih =>
+    intro p h hc
+    have he : e.isCause = false := hc e (by simp)
+    have hs : (step p e).validated = false := by
+      cases hv : (step p e).validated with
+      | false => rfl
+      | true =>
+        rcases step_validated_cause p e hv with h1 | h1
+        · rw [h] at h1; cases h1
+        · rw [he] at h1; cases h1
+    exact ih (step p e) hs (fun x hx => hc x (by simp [hx]))
+
+/-- a run that ends validated either started validated and never migrated, or contains a cause with no migration
+    after it -/
+theorem run_validated_cause' (evs : List Ev) : ∀ (p : Path), (run p evs).validated = true →
+    (p.validated = true ∧ ∀ e ∈ evs, ∀ n, e ≠ .migrate n) ∨
+    ∃ pre c post, evs = pre ++ c :: post ∧ c.isCause = true ∧ ∀ e ∈ post, ∀ n, e ≠ .migrate n := by
+  induction evs with
+  | nil => intro p hr; left; exact ⟨hr, by intro e he; cases he⟩
+  | cons e rest ih =>
+    intro p hr
+    have hrun : run p (e :: rest) = run (step p e) rest := rfl
+    rw [hrun] at hr
+    rcases ih (step p e) hr with ⟨hv, hm⟩ | ⟨pre, c, post, he, hc, hp⟩
+    · rcases step_validated_cause p e hv with h1 | h1
+      · left
+        refine ⟨h1, ?_⟩
+        intro x hx n hxe
+        rcases List.mem_cons.mp hx with hx | hx
+        · subst hx; subst hxe; simp [step] at hv
+        · exact hm x hx n hxe
+      · right; exact ⟨[], e, rest, rfl, h1, hm⟩
+    · right; exact ⟨e :: pre, c, post, by simp [he], hc, hp⟩
+
+theorem run_validated_cause (evs : List Ev) (p : Path) (h : p.validated = false) (hr : (run p evs).validated = true) :
+    ∃ pre c post, evs = pre ++ c :: post ∧ c.isCause = true ∧ ∀ e ∈ post, ∀ n, e ≠ .migrate n := by
+  rcases run_validated_cause' evs p hr with ⟨hv, _⟩ | h'
+  · rw [h] at hv; cases hv
+  · exact h'
+
+/-- the verdict on one datagram is sound for the events it stands for: "stays unvalidated" is issued only when the
+    datagram stands for no cause (and then the events leave the flag off), "validated" only for a path that was -/
+theorem rxVerdict_sound (p : Path) (hs pr : Bool) (b : Bool)
+    (h : rxVerdict p.validated hs pr = some b) :
+    (b = false → hs = false ∧ pr = false ∧ (run p (rxEvents hs pr)).validated = false) ∧ (b = true → p.validated = true) := by
+  unfold rxVerdict at h
+  cases hv : p.validated <;> cases hs <;> cases pr <;> simp_all [rxEvents, run]
+
+/-- with a cause the verdict leaves the outcome open, and the events it stands for do validate -/
+theorem rxVerdict_open (p : Path) (hs pr : Bool) (hv : p.validated = false) (hc : (hs || pr) = true) :
+    rxVerdict p.validated hs pr = none ∧ (run p (rxEvents hs pr)).validated = true := by
+  unfold rxVerdict
+  cases hs <;> cases pr <;> simp_all [rxEvents, run, step]
 
 end QM.Amp
